@@ -329,4 +329,17 @@ theorem Inv.progress {cap script s} (hi : Inv script s)
       · exact absurd hch hw
       · exact absurd hr hw
 
+theorem reach_run {cap script} : ∀ (acts : List Act) {s t}, Reach cap script s → runActs cap s acts = some t →
+    Reach cap script t
+  | [], s, t, hr, h => by simp only [runActs] at h; cases h; exact hr
+  | a :: as, s, t, hr, h => by
+    simp only [runActs] at h
+    split at h
+    · next u hu => exact reach_run as (Reach.step a hr hu) h
+    · cases h
+
+/-- a concrete schedule gives a reachable state (used by the non-vacuity examples) -/
+theorem reach_of_run {cap script} (acts : List Act) {t} (h : runActs cap (MB.init script) acts = some t) :
+    Reach cap script t := reach_run acts Reach.init h
+
 end FpgoVerif.C12
